@@ -367,6 +367,43 @@ def g_rev_norev(rnd):
     return files
 
 
+OCEXT = ("openconfig-extensions.yang", 'module openconfig-extensions {\n  namespace "urn:openconfig-extensions";\n  prefix oc-ext;\n'
+         '  extension posix-pattern { argument pattern; }\n}\n')
+
+
+def g_posix_patterns(rnd):
+    """base typedefs with 1..7 patterns and/or posix-patterns (slices whose capacity exceeds their length after append),
+    restricted by 2..3 typedefs and leaf types that add posix-patterns only / patterns only / both / are unions: what one
+    restriction adds must never show up in another, whatever order the typedef dictionary is walked in"""
+    files = [OCEXT]
+    for mi in range(rnd.randint(1, 2)):
+        me = "pp%d" % mi
+        body = ""
+        for bi in range(rnd.randint(1, 2)):
+            base = "b%d_%d" % (mi, bi)
+            npat, npos = rnd.choice([(3, 3), (0, 3), (3, 0), (0, 1), (0, 5), (0, 7), (2, 6), (5, 5), (1, 0)])
+            subs = ["pattern 'p%d.*';" % i for i in range(npat)] + ["oc-ext:posix-pattern '^x%d.*$';" % i for i in range(npos)]
+            rnd.shuffle(subs)
+            body += "  typedef %s { type string { %s } }\n" % (base, " ".join(subs))
+            kinds = ["posix", "posix", "posix", "pattern", "both", "plain"]
+            for ri in range(rnd.randint(2, 3)):
+                k = rnd.choice(kinds)
+                add = {"posix": "oc-ext:posix-pattern '^r%d{1,%d}$';" % (ri, ri + 3),
+                       "pattern": "pattern 'r%d{1,%d}';" % (ri, ri + 3),
+                       "both": "pattern 'q%d+'; oc-ext:posix-pattern '^q%d+$';" % (ri, ri),
+                       "plain": ""}[k]
+                body += "  typedef r%d_%d_%d { type %s%s }\n" % (mi, bi, ri, base, (" { %s }" % add) if add else ";")
+                body += "  leaf l%d_%d_%d { type r%d_%d_%d; }\n" % (mi, bi, ri, mi, bi, ri)
+            for li in range(rnd.randint(0, 2)):
+                body += "  leaf d%d_%d_%d { type %s { oc-ext:posix-pattern '^d%d+$'; } }\n" % (mi, bi, li, base, li)
+            body += "  leaf plain%d_%d { type %s; }\n" % (mi, bi, base)
+            if rnd.random() < 0.5:
+                body += "  typedef u%d_%d { type union { type %s; type int8; } }\n" % (mi, bi, base)
+                body += "  leaf ua%d_%d { type u%d_%d; }\n  leaf ub%d_%d { type u%d_%d; }\n" % ((mi, bi) * 4)
+        files.append(mod(me, body, imports=[("oc-ext", "openconfig-extensions")]))
+    return files
+
+
 def g_random(rnd):
     return files_of_schema(sg.random_schema(rnd, n_modules=rnd.randint(2, 4)))
 
@@ -403,11 +440,13 @@ GENS = [("random", g_random, 8), ("random-faulty", g_random_faulty, 3), ("identi
         ("deviate-delete-add", g_dev_delete_add, 1), ("two-deviators", g_two_deviators, 2), ("two-augmenters", g_two_augmenters, 2),
         ("dup-names", g_dup_names, 1), ("errors-multi", g_errors_multi, 2), ("missing-imports", g_missing_imports, 2),
         ("two-revisions", g_two_revisions, 1), ("typedefs", g_typedefs, 1),
-        ("ident-shared-prefix", g_ident_shared_prefix, 2), ("typedef-cycles", g_typedef_cycles, 2), ("rev-norev", g_rev_norev, 2)]
+        ("ident-shared-prefix", g_ident_shared_prefix, 2), ("typedef-cycles", g_typedef_cycles, 2), ("rev-norev", g_rev_norev, 2),
+        ("posix-patterns", g_posix_patterns, 2)]
 # families whose defects only show as a difference between runs with the SAME input: more repeats
-REPEATS = {"ident-shared-prefix": 6, "typedef-cycles": 6, "rev-norev": 5, "identities": 5}
+REPEATS = {"ident-shared-prefix": 6, "typedef-cycles": 6, "rev-norev": 5, "identities": 5, "posix-patterns": 6, "typedefs": 5}
 # always present, whatever the seed draws
-CORPUS = [("ident-shared-prefix", g_ident_shared_prefix, 6), ("typedef-cycles", g_typedef_cycles, 6), ("rev-norev", g_rev_norev, 4)]
+CORPUS = [("ident-shared-prefix", g_ident_shared_prefix, 6), ("typedef-cycles", g_typedef_cycles, 6), ("rev-norev", g_rev_norev, 4),
+          ("posix-patterns", g_posix_patterns, 6)]
 
 
 def go_line(files, opts="-"):
@@ -666,7 +705,7 @@ def run(res, tier, seed, proof):
     cases = gen_cases(rnd, 300 if quick else 16000)
     k, max_perms = (3, 8) if quick else (5, 23)
     mm = metamorphic(res, cases, rnd, k, max_perms)
-    cli_cases = cases[:50] if quick else cases[:1500]
+    cli_cases = cases[:56] if quick else cases[:1500]
     cli = cli_part(res, cli_cases, rnd, 3 if quick else 4, 4 if quick else 8)
     cov = dict(
         evaluations=es_evals + mm["runs"] + cli["invocations"],
@@ -678,7 +717,8 @@ def run(res, tier, seed, proof):
              "generators (same identity name in several modules, deviate delete+add, several modules deviating or augmenting one "
              "node, duplicate names, errors in several files and on one line with lines 9/10/100, missing imports, two revisions, "
              "typedef chains, same-named identities in modules sharing an own prefix, typedef cycles of length 2-4, one module "
-             "name with and without revision plus importers; the last three also as a fixed corpus with >= 5 repeats): each processed k times in one order and in all (<= 4 files, capped) or sampled load orders; all "
+             "name with and without revision plus importers, typedefs restricted by several typedefs/leaves that add "
+             "posix-patterns (openconfig extension) or patterns only; the last four also as a fixed corpus with >= 5 repeats): each processed k times in one order and in all (<= 4 files, capped) or sampled load orders; all "
              "dumps byte-identical (ids included; id-only differences counted), error list ordered and duplicate-free.  (3) the "
              "goyang command with --format tree/types on a prefix of the same sets, repeated and with permuted arguments.  "
              "non-trivial = more than one file / distinct set of error texts",
